@@ -8,13 +8,20 @@
 (* to the Generate: a signature verifies under the DNSKEY of k exactly when    *)
 (* the signing handle descends from Generate(k), however many export/import    *)
 (* cycles lie in between.                                                      *)
+(* Relay: a text is kept in a file, a secret store, another tool, and comes    *)
+(* back in another LAYOUT (Dnssec17!KFLayouts: format version line, timing     *)
+(* fields, empty lines, the newline after the last line ...) with the same     *)
+(* fields.  The copy denotes the key the original denotes: the layout of a     *)
+(* text never decides which key an import yields.                              *)
 EXTENDS Integers, Sequences, FiniteSets, TLC
 
 CONSTANTS Keys,      \* key identities, 1..n
-          MaxOps     \* bound on the length of a behaviour (MC / Gen only)
+          MaxOps,    \* bound on the length of a behaviour (MC / Gen only)
+          Layouts    \* the layouts a relayed text may come back in (opaque here)
 
 VARIABLES hs,        \* private-key handles: [origin |-> "gen", key |-> k] | [origin |-> "imp", text |-> j]
-          ts,        \* private-key texts:   [from |-> handle index, key |-> 0] exported | [from |-> 0, key |-> k] provided
+          ts,        \* private-key texts:   [from |-> handle index, key |-> 0] exported | [from |-> 0, key |-> k] provided;
+                     \*                       copy |-> 0, or the text this one is a relayed copy of
           ss,        \* signatures:          [by |-> handle index]
           hist       \* the operations so far, with the results of the verifications
 
@@ -38,16 +45,28 @@ Generate(k) ==
   /\ UNCHANGED <<ts, ss>>
 Provide(k) ==                          \* a private-key text for key pair k arrives from elsewhere
   /\ k \notin Introduced
-  /\ ts' = Append(ts, [from |-> 0, key |-> k])
+  /\ ts' = Append(ts, [from |-> 0, key |-> k, copy |-> 0])
   /\ hist' = Append(hist, [op |-> "provide", key |-> k])
   /\ UNCHANGED <<hs, ss>>
 Export(i) ==
   /\ i \in 1..Len(hs)
-  /\ ts' = Append(ts, [from |-> i, key |-> 0])
+  /\ ts' = Append(ts, [from |-> i, key |-> 0, copy |-> 0])
   /\ hist' = Append(hist, [op |-> "export", h |-> i])
   /\ UNCHANGED <<hs, ss>>
-Import(j, api) ==                      \* api: "new" = NewPrivateKey, "read" = ReadPrivateKey; same meaning
+Relay(j, lay) ==                       \* text j comes back from a store in layout lay: same fields, same key
   /\ j \in 1..Len(ts)
+  /\ lay \in Layouts
+  /\ ts' = Append(ts, [from |-> ts[j].from, key |-> ts[j].key, copy |-> j])
+  /\ hist' = Append(hist, [op |-> "relay", t |-> j, lay |-> lay])
+  /\ UNCHANGED <<hs, ss>>
+\* The ways a text reaches the library; all mean the same.  "new" = NewPrivateKey(string); the others = ReadPrivateKey
+\* from an io.Reader: "read" one that also reads single octets (strings.Reader: io.ByteReader), "readplain" one that does
+\* not (a file: the library buffers it), "read1" one that delivers one octet per Read, "readeof" one that returns the last
+\* octets together with io.EOF.  How the octets arrive never decides which key an import yields.
+Apis == {"new", "read", "readplain", "read1", "readeof"}
+Import(j, api) ==
+  /\ j \in 1..Len(ts)
+  /\ api \in Apis
   /\ hs' = Append(hs, [origin |-> "imp", text |-> j])
   /\ hist' = Append(hist, [op |-> "import", t |-> j, api |-> api])
   /\ UNCHANGED <<ts, ss>>
@@ -69,6 +88,7 @@ Next ==
   /\ \/ \E k \in Keys : k = Cardinality(Introduced) + 1 /\ Generate(k)
      \/ \E k \in Keys : k = Cardinality(Introduced) + 1 /\ Provide(k)
      \/ \E i \in 1..Len(hs) : Export(i)
+     \/ \E j \in 1..Len(ts), lay \in Layouts : Relay(j, lay)
      \/ \E j \in 1..Len(ts), api \in {"new", "read"} : Import(j, api)
      \/ \E i \in 1..Len(hs) : Sign(i)
      \/ \E k \in Keys, j \in 1..Len(ss) : Verify(k, j)
@@ -77,6 +97,7 @@ Next ==
 TypeOK ==
   /\ \A i \in 1..Len(hs) : IF hs[i].origin = "gen" THEN hs[i].key \in Keys ELSE hs[i].text \in 1..Len(ts)
   /\ \A j \in 1..Len(ts) : IF ts[j].from = 0 THEN ts[j].key \in Keys ELSE ts[j].from \in 1..Len(hs)
+  /\ \A j \in 1..Len(ts) : ts[j].copy \in 0..(j - 1)
   /\ \A j \in 1..Len(ss) : ss[j].by \in 1..Len(hs)
 \* provenance is well-founded and ends in a generated key
 Rooted == \A i \in 1..Len(hs) : KeyOf(i) \in Introduced /\ (hs[i].origin = "imp" => ts[hs[i].text].from < i)
@@ -84,6 +105,11 @@ Rooted == \A i \in 1..Len(hs) : KeyOf(i) \in Introduced /\ (hs[i].origin = "imp"
 Interchangeable ==
   \A i \in 1..Len(hs) : hs[i].origin = "imp" =>
      LET t == ts[hs[i].text] IN KeyOf(i) = (IF t.from = 0 THEN t.key ELSE KeyOf(t.from))
+\* the layout of a text is irrelevant: a relayed copy, and every handle read from it, is the key of the original
+TextKey(j) == IF ts[j].from = 0 THEN ts[j].key ELSE KeyOf(ts[j].from)
+LayoutIrrelevant ==
+  /\ \A j \in 1..Len(ts) : ts[j].copy # 0 => TextKey(j) = TextKey(ts[j].copy)
+  /\ \A i \in 1..Len(hs) : hs[i].origin = "imp" => KeyOf(i) = TextKey(hs[i].text)
 \* every recorded verification succeeded iff the signer descends from that key; distinct keys never verify each other
 VerifyIffSameKey ==
   \A n \in 1..Len(hist) : hist[n].op = "verify" =>
